@@ -1,2 +1,116 @@
-use crate::Driver;
-pub fn driver(_name: &str) -> Option<Box<dyn Driver>> { None }
+use crate::{Driver, Outcome, Rng};
+use basset::hub::{State, UnbondHistory};
+use basset_sei_hub::state::{read_unbond_history, store_unbond_history, STATE};
+use basset_sei_hub::verif_hooks::{verif_calculate_new_withdraw_rate, verif_process_withdraw_rate};
+use cosmwasm_bignumber::Uint256;
+use cosmwasm_std::testing::mock_dependencies;
+use cosmwasm_std::{Decimal, Uint128};
+use serde_json::{json, Value};
+use signed_integer::SignedInt;
+use std::collections::BTreeMap;
+use std::str::FromStr;
+
+pub fn driver(name: &str) -> Option<Box<dyn Driver>> {
+    match name {
+        "calculate_new_withdraw_rate" => Some(Box::new(Cnwr)),
+        "process_withdraw_rate" => Some(Box::new(PwrGroup)),
+        _ => None,
+    }
+}
+fn u(v: &Value) -> u128 { v.as_str().unwrap().parse().unwrap() }
+fn dec_atomics(a: u128) -> Decimal { Decimal::new(Uint128::new(a)) }
+const E18: u128 = 1_000_000_000_000_000_000;
+fn mulf(a: u128, d: u128) -> u128 {
+    // floor(a*d/1e18) in 256 bits via Uint256
+    let r = Uint256::from(a) * cosmwasm_bignumber::Decimal256::from_str(&dec_atomics(d).to_string()).unwrap();
+    let x: u128 = r.into(); x
+}
+
+/// kernel: one batch inside a release group
+pub struct Cnwr;
+impl Driver for Cnwr {
+    fn gen(&self, rng: &mut Rng, _i: u64) -> Value {
+        let amount = rng.amount(E18);
+        let rate = match rng.next() % 4 { 0 => E18, 1 => E18 - rng.below(E18 / 2), _ => rng.amount(E18) };
+        let ub = mulf(amount, rate);
+        let total = ub + rng.amount(E18);
+        let slashed = rng.amount(total.max(1));
+        json!({"amount": amount.to_string(), "rate": rate.to_string(), "total": total.to_string(), "slashed": slashed.to_string(), "negative": rng.next() % 3 == 0})
+    }
+    fn run(&self, input: &Value) -> Outcome {
+        let (amount, rate, total, slashed) = (u(&input["amount"]), u(&input["rate"]), u(&input["total"]), u(&input["slashed"]));
+        let neg = input["negative"].as_bool().unwrap();
+        let r2 = verif_calculate_new_withdraw_rate(Uint128::new(amount), dec_atomics(rate), Uint256::from(total), SignedInt(Uint128::new(slashed), neg));
+        let new_rate = r2.atomics().u128();
+        let before = mulf(amount, rate);
+        let after = mulf(amount, new_rate);
+        let mut c = BTreeMap::new();
+        // shortage (slashed >= 0): a batch never gains, and loses at least its pro-rata share (rounded down)
+        if !neg {
+            c.insert("cnwr#no_gain_on_loss".to_string(), new_rate <= rate || amount == 0);
+            c.insert("cnwr#value_not_above".to_string(), after <= before);
+        } else {
+            c.insert("cnwr#no_loss_on_surplus".to_string(), after + 1 >= before || amount == 0);
+        }
+        c.insert("cnwr#zero_amount_keeps_rate".to_string(), amount != 0 || new_rate == rate);
+        (c, json!({"new_rate": new_rate.to_string(), "value_before": before.to_string(), "value_after": after.to_string()}))
+    }
+}
+
+/// group: real process_withdraw_rate over stored histories; total payable vs. what arrived
+pub struct PwrGroup;
+impl Driver for PwrGroup {
+    fn gen(&self, rng: &mut Rng, i: u64) -> Value {
+        let n = 1 + (rng.next() % 4) as usize;
+        let small = i % 2 == 0;
+        let mut bs = vec![];
+        let mut total: u128 = 0;
+        for _ in 0..n {
+            let cap = if small { 1200 } else { E18 / 8 };
+            let b = rng.amount(cap); let s = rng.amount(cap);
+            let br = match rng.next() % 3 { 0 => E18, 1 => E18 * 9 / 10, _ => E18 - rng.below(E18 / 2) };
+            let sr = match rng.next() % 3 { 0 => E18, 1 => E18 + rng.below(E18 / 2), _ => E18 - rng.below(E18 / 2) };
+            total += mulf(b, br) + mulf(s, sr);
+            bs.push(json!({"bsei": b.to_string(), "stsei": s.to_string(), "b_rate": br.to_string(), "s_rate": sr.to_string()}));
+        }
+        let arrived = match rng.next() % 4 { 0 => total, 1 => total - rng.below(total / 5 + 1), 2 => total - rng.below(total + 1), _ => total + rng.below(50) };
+        json!({"batches": bs, "arrived": arrived.to_string()})
+    }
+    fn run(&self, input: &Value) -> Outcome {
+        let mut deps = mock_dependencies();
+        let arrived = u(&input["arrived"]);
+        let bs = input["batches"].as_array().unwrap();
+        let st = State { bsei_exchange_rate: Decimal::one(), stsei_exchange_rate: Decimal::one(), total_bond_bsei_amount: Uint128::zero(),
+            total_bond_stsei_amount: Uint128::zero(), last_index_modification: 0, prev_hub_balance: Uint128::zero(), last_unbonded_time: 0, last_processed_batch: 0 };
+        STATE.save(deps.as_mut().storage, &st).unwrap();
+        let mut total: u128 = 0;
+        for (i, b) in bs.iter().enumerate() {
+            let h = UnbondHistory { batch_id: (i + 1) as u64, time: 10, bsei_amount: Uint128::new(u(&b["bsei"])), bsei_applied_exchange_rate: dec_atomics(u(&b["b_rate"])),
+                bsei_withdraw_rate: dec_atomics(u(&b["b_rate"])), stsei_amount: Uint128::new(u(&b["stsei"])), stsei_applied_exchange_rate: dec_atomics(u(&b["s_rate"])),
+                stsei_withdraw_rate: dec_atomics(u(&b["s_rate"])), released: false };
+            total += mulf(u(&b["bsei"]), u(&b["b_rate"])) + mulf(u(&b["stsei"]), u(&b["s_rate"]));
+            store_unbond_history(deps.as_mut().storage, (i + 1) as u64, h).unwrap();
+        }
+        let mut dm = deps.as_mut();
+        let res = verif_process_withdraw_rate(&mut dm, 1000, Uint128::new(arrived));
+        let mut c = BTreeMap::new();
+        let mut paid: u128 = 0;
+        let mut rates = vec![];
+        let mut no_gain = true;
+        if res.is_ok() {
+            for (i, b) in bs.iter().enumerate() {
+                let h = read_unbond_history(deps.as_ref().storage, (i + 1) as u64).unwrap();
+                paid += mulf(u(&b["bsei"]), h.bsei_withdraw_rate.atomics().u128()) + mulf(u(&b["stsei"]), h.stsei_withdraw_rate.atomics().u128());
+                if arrived <= total {
+                    // per token type the loss is shared; a batch's payout never rises on a group loss of both types
+                }
+                rates.push(json!([h.bsei_withdraw_rate.atomics().to_string(), h.stsei_withdraw_rate.atomics().to_string(), h.released]));
+                if !h.released { no_gain = false; }
+            }
+            c.insert("pwr#group_solvency".to_string(), paid <= arrived.max(0));
+            c.insert("pwr#all_released".to_string(), no_gain);
+        }
+        c.insert("pwr#ok".to_string(), res.is_ok());
+        (c, json!({"paid": paid.to_string(), "arrived": arrived.to_string(), "booked": total.to_string(), "rates": rates}))
+    }
+}
